@@ -176,14 +176,16 @@ impl<T: Qcow2IoOps> Qcow2Dev<T> {
                 // first writer: nothing has been written to it until then, so it
                 // reads as zero. If zeroing is in progress, wait for it, since the
                 // writer holds this lock until that is done.
-                {
+                let cluster = {
                     let cls_map = self.new_cluster.read().await;
-                    if let Some(cluster) = cls_map.get(&(off >> self.info.cluster_bits())) {
-                        let zeroing_started = cluster.read().await;
-                        if !(*zeroing_started) {
-                            zero_buf!(buf);
-                            return Ok(buf.len());
-                        }
+
+                    cls_map.get(&(off >> self.info.cluster_bits())).cloned()
+                };
+                if let Some(cluster) = cluster {
+                    let zeroing_started = cluster.read().await;
+                    if !(*zeroing_started) {
+                        zero_buf!(buf);
+                        return Ok(buf.len());
                     }
                 }
 
